@@ -215,3 +215,15 @@ class SitkAgreement:
             K.ensure_eq("rt-origin", np.array(out.GetOrigin()), np.array(o), text=Q2H)
             K.ensure_eq("rt-spacing", np.array(out.GetSpacing()), np.array(s), text=Q2H)
             K.ensure_eq("rt-direction", np.array(out.GetDirection()), Rn.reshape(-1), text=Q2H)
+        # the NumPy-side grid helper of the SimpleITK utilities follows the same convention
+        from deepali.utils.simpleitk.grid import image_grid_attributes
+
+        ga = K.call(image_grid_attributes, img)
+        if K.ensure_returns(ga, text=Q2 + " [utils.simpleitk.grid.GridAttrs]"):
+            p2 = K.call(ga.index_to_physical_space, np.array(idx))
+            if K.ensure_returns(p2):
+                K.ensure_eq("attrs-index->physical", np.asarray(p2), np.array(itk_pts), text=Q2 + " [GridAttrs.index_to_physical_space vs ITK]")
+            i2 = K.call(ga.physical_space_to_continuous_index, np.array(itk_pts))
+            if K.ensure_returns(i2):
+                K.ensure_eq("attrs-physical->index", np.asarray(i2), np.array(itk_idx), text="C02: maps physical points back to the same continuous index [GridAttrs vs ITK]", tol=1e-3)
+            K.ensure_eq("attrs-header", np.array(list(ga.origin) + list(ga.spacing)), np.array(o + s), text=Q2H + " [GridAttrs]")
